@@ -13,6 +13,9 @@ import (
 // VerifNode is a dump of one node. Self and Next are the node pointers
 // themselves (usable as map keys for identity); Mutex points at the node's
 // mutex.
+// VerifCheckOrder exposes the order validation shared by all constructors.
+func VerifCheckOrder(order int) error { return checkOrder(order) }
+
 type VerifNode struct {
 	Self      interface{}
 	Internal  bool
